@@ -6,7 +6,7 @@ Require Import Cirbo.Model.BitIO Cirbo.Model.DictIO Cirbo.Model.Codec Cirbo.Mode
 Require Import Cirbo.Generated.Operators Cirbo.Generated.GateTypes.
 Require Import Cirbo.Proofs.DictFacts Cirbo.Proofs.DictIOFacts Cirbo.Proofs.SemFacts Cirbo.Proofs.EvalFacts.
 Require Import Cirbo.Proofs.CodecIds Cirbo.Proofs.IsoFacts Cirbo.Proofs.CodecFacts.
-Require Import Cirbo.Proofs.TruthTableFacts Cirbo.Proofs.NormFacts.
+Require Import Cirbo.Proofs.TruthTableFacts Cirbo.Proofs.NormFacts Cirbo.Proofs.LabelFacts.
 From Coq Require Import Permutation.
 
 (* ------------------------------------------------------------------ *)
@@ -232,8 +232,17 @@ Record stored_ok (c : circuit) (t : table) : Prop := {
   so_computes : computes c t }.
 
 Definition db_ok (d : db) : Prop :=
-  forall t bs, dget d (truth_table_to_label t) = Some bs ->
+  forall t bs, rows_nonempty t -> dget d (truth_table_to_label t) = Some bs ->
     exists c, decode_circuit bs = Ok c /\ stored_ok c t.
+
+Lemma negated_row_nonempty r : r <> [] -> negated_row r <> [].
+Proof. unfold negated_row. destruct r; [congruence|]. destruct (hd false (b :: r)); simpl; discriminate. Qed.
+
+Lemma normalize_rows_nonempty t ni : normalize t = Ok ni -> rows_nonempty (norm_table ni).
+Proof.
+  intros H. apply Forall_forall. intros row Hin.
+  destruct (normalize_rows _ _ H row Hin) as (r & _ & Hr & ->). apply negated_row_nonempty; exact Hr.
+Qed.
 
 Theorem denormalize_correct t ni c c' :
   normalize t = Ok ni -> stored_ok c (norm_table ni) -> denormalize ni c = DbOk c' -> computes c' t.
@@ -317,7 +326,7 @@ Proof.
   intros Hdb H. unfold get_by_raw_truth_table in H.
   destruct (normalize t) as [ni|] eqn:En; simpl in H; [|discriminate].
   unfold get_by_label in H. destruct (dget d (truth_table_to_label (norm_table ni))) as [bs|] eqn:Ed; simpl in H; [|discriminate].
-  destruct (Hdb _ _ Ed) as (c & Hdec & Hso). rewrite Hdec in H. simpl in H.
+  destruct (Hdb _ _ (normalize_rows_nonempty _ _ En) Ed) as (c & Hdec & Hso). rewrite Hdec in H. simpl in H.
   destruct (denormalize ni c) as [c2|] eqn:Eden; simpl in H; [|discriminate]. injection H as <-.
   eapply denormalize_correct; eassumption.
 Qed.
